@@ -43,6 +43,8 @@ pub mod reloc_engine;
 #[cfg(feature = "cb-std")]
 pub mod runner;
 #[cfg(feature = "cb-std")]
+pub mod tiny_engine;
+#[cfg(feature = "cb-std")]
 pub mod tracked;
 #[cfg(feature = "cb-std")]
 pub mod zfull_engine;
